@@ -21,6 +21,10 @@ type TimerDef struct {
 	N        int    `json:"n"`
 	End      int    `json:"end"`
 	HasStart bool   `json:"hasstart"` // cycle: explicit start in the expression (else: creation time = 0)
+	// Far: the due time (date) / end bound (cycle) lies centuries ahead (a "never" sentinel):
+	// the model's value is merely beyond every clock reading of the grid, the real definition
+	// says year 2300 / 9999
+	Far bool `json:"far"`
 }
 
 type TimerStep struct {
@@ -48,8 +52,20 @@ type TmRec struct {
 }
 
 func iso(sec int) string {
+	switch sec {
+	case FarA:
+		return "2300-01-01T00:00:00Z"
+	case FarB:
+		return "9999-12-31T23:59:59Z"
+	}
 	return time.Unix(int64(sec), 0).UTC().Format("2006-01-02T15:04:05Z")
 }
+
+// model times standing for instants centuries ahead
+const (
+	FarA = 2000000
+	FarB = 3000000
+)
 
 // Expr renders the definition as the ISO-8601 text of a timerEventDefinition.
 func (d TimerDef) Expr() (field, text string) {
